@@ -121,95 +121,95 @@ def Server.updateTXTimestamp : List Row := [
 
 /-- core/server, runIPServer -/
 def Server.runIPServer : List Row := [
-  (0, "func runIPServer(ctx context.Context, log *slog.Logger, mtrcs *ipServerMetrics, conn *net.UDPConn, iface string, dscp uint8, provider *ntske.Provider)"),  -- ?
-  (1, "defer conn.Close()"),  -- ?
-  (1, "err := udp.EnableTimestamping(conn, iface)"),  -- ?
-  (1, "if err != nil"),  -- ?
-  (1, "err = udp.SetDSCP(conn, dscp)"),  -- ?
-  (1, "if err != nil"),  -- ?
-  (1, "var txid uint32"),  -- ?
-  (1, "buf := make([]byte, 2048)"),  -- ?
-  (1, "oob := make([]byte, udp.TimestampLen())"),  -- ?
-  (1, "for"),  -- ?
-  (2, "buf = buf[:cap(buf)]"),  -- ?
-  (2, "oob = oob[:cap(oob)]"),  -- ?
-  (2, "n, oobn, flags, srcAddr, err := conn.ReadMsgUDPAddrPort(buf, oob)"),  -- ?
-  (2, "if err != nil"),  -- ?
-  (3, "continue"),  -- ?
-  (2, "if flags != 0"),  -- ?
-  (3, "continue"),  -- ?
-  (2, "oob = oob[:oobn]"),  -- ?
-  (2, "rxt, err := udp.TimestampFromOOBData(oob)"),  -- ?
-  (2, "if err != nil"),  -- ?
-  (3, "oob = oob[:0]"),  -- ?
-  (3, "rxt = timebase.Now()"),  -- ?
-  (2, "buf = buf[:n]"),  -- ?
-  (2, "var ntpreq ntp.Packet"),  -- ?
-  (2, "err = ntp.DecodePacket(&ntpreq, buf)"),  -- ?
-  (2, "if err != nil"),  -- ?
-  (3, "continue"),  -- ?
-  (2, "var authenticated bool"),  -- ?
-  (2, "var ntsreq nts.Packet"),  -- ?
-  (2, "var serverCookie ntske.ServerCookie"),  -- ?
-  (2, "if len(buf) > ntp.PacketLen"),  -- ?
-  (3, "err = nts.DecodePacket(&ntsreq, buf)"),  -- ?
-  (3, "if err != nil"),  -- ?
-  (4, "continue"),  -- ?
-  (3, "cookie, err := ntsreq.FirstCookie()"),  -- ?
-  (3, "if err != nil"),  -- ?
-  (4, "continue"),  -- ?
-  (3, "var encryptedCookie ntske.EncryptedServerCookie"),  -- ?
-  (3, "err = encryptedCookie.Decode(cookie)"),  -- ?
-  (3, "if err != nil"),  -- ?
-  (4, "continue"),  -- ?
-  (3, "key, ok := provider.Get(int(encryptedCookie.ID))"),  -- ?
-  (3, "if !ok"),  -- ?
-  (4, "continue"),  -- ?
-  (3, "serverCookie, err = encryptedCookie.Decrypt(key.Value)"),  -- ?
-  (3, "if err != nil"),  -- ?
-  (4, "continue"),  -- ?
-  (3, "err = nts.ProcessRequest(buf, serverCookie.C2S, &ntsreq)"),  -- ?
-  (3, "if err != nil"),  -- ?
-  (4, "continue"),  -- ?
-  (3, "authenticated = true"),  -- ?
-  (2, "err = ntp.ValidateRequest(&ntpreq, srcAddr.Port())"),  -- ?
-  (2, "if err != nil"),  -- ?
-  (3, "continue"),  -- ?
-  (2, "clientID := srcAddr.Addr().String()"),  -- ?
-  (2, "var txt0 time.Time"),  -- ?
-  (2, "var ntpresp ntp.Packet"),  -- ?
-  (2, "handleRequest(clientID, &ntpreq, &rxt, &txt0, &ntpresp)"),  -- ?
-  (2, "ntp.EncodePacket(&buf, &ntpresp)"),  -- ?
-  (2, "if authenticated"),  -- ?
-  (3, "var cookies [][]byte"),  -- ?
-  (3, "key := provider.Current()"),  -- ?
-  (3, "addedCookie := false"),  -- ?
-  (3, "for range len(ntsreq.Cookies) + len(ntsreq.CookiePlaceholders)"),  -- ?
-  (4, "encryptedCookie, err := serverCookie.EncryptWithNonce(key.Value, key.ID)"),  -- ?
-  (4, "if err != nil"),  -- ?
-  (5, "continue"),  -- ?
-  (4, "cookie := encryptedCookie.Encode()"),  -- ?
-  (4, "cookies = append(cookies, cookie)"),  -- ?
-  (4, "addedCookie = true"),  -- ?
-  (3, "if !addedCookie"),  -- ?
-  (4, "continue"),  -- ?
-  (3, "ntsresp := nts.NewResponsePacket(cookies, serverCookie.S2C, ntsreq.UniqueID.ID)"),  -- ?
-  (3, "nts.EncodePacket(&buf, &ntsresp)"),  -- ?
-  (2, "n, err = conn.WriteToUDPAddrPort(buf, srcAddr)"),  -- ?
-  (2, "if err != nil || n != len(buf)"),  -- ?
-  (3, "continue"),  -- ?
-  (2, "txt1, id, err := udp.ReadTXTimestamp(conn)"),  -- ?
-  (2, "for err == nil && int32(id-txid) < 0"),  -- ?
-  (3, "txt1, id, err = udp.ReadTXTimestamp(conn)"),  -- ?
-  (2, "if err != nil"),  -- ?
-  (3, "txt1 = txt0"),  -- ?
-  (3, "txid++"),  -- ?
-  (2, "else if id != txid"),  -- ?
-  (3, "txt1 = txt0"),  -- ?
-  (3, "txid = id + 1"),  -- ?
-  (2, "else"),  -- ?
-  (3, "txid++"),  -- ?
-  (2, "updateTXTimestamp(clientID, rxt, &txt1)")  -- ?
+  (0, "func runIPServer(ctx context.Context, log *slog.Logger, mtrcs *ipServerMetrics, conn *net.UDPConn, iface string, dscp uint8, provider *ntske.Provider)"),  -- ServerReply.runLoopN / ListenerTx.runEvs: goroutine = fold over datagrams (harness c09 ip.hist, c06tx tx.hist)
+  (1, "defer conn.Close()"),  -- env: defer conn.Close(); the loop has no exit, so it only runs on a panic
+  (1, "err := udp.EnableTimestamping(conn, iface)"),  -- env: socket option set-up; its effect enters ListenerTx as Ev.ntp krx (rx stamp) and KB (tx stamp delivery)
+  (1, "if err != nil"),  -- env: error is only logged, loop runs without kernel stamps = Ev.ntp krx none / KB.never (c06tx regime none)
+  (1, "err = udp.SetDSCP(conn, dscp)"),  -- env: socket option set-up (IP_TOS / IPV6_TCLASS), no model input
+  (1, "if err != nil"),  -- env: error is only logged
+  (1, "var txid uint32"),  -- ListenerTx.LSock.init: txid := 0 (Nat for uint32; fewer than 2^31 datagrams per socket assumed)
+  (1, "buf := make([]byte, 2048)"),  -- ServerReply.ipServerBufLen: 2048; pin C09_pin_ipServerBufLen (x_c09.go)
+  (1, "oob := make([]byte, udp.TimestampLen())"),  -- env: buffer allocation for the control data (CmsgSpace(48) = 64 bytes, one SO_TIMESTAMPING_NEW cmsg)
+  (1, "for"),  -- ServerReply.runLoopN / ListenerTx.runEvs: recursion over the list of datagrams (endless loop, no exit)
+  (2, "buf = buf[:cap(buf)]"),  -- ServerReply.loopIter: restoreAtTop = true, bl := ipServerBufLen; pin C09_pin_restoreAtLoopTop (x_c09.go)
+  (2, "oob = oob[:cap(oob)]"),  -- pin C09_pin_restoreAtLoopTop (x_c09.go): second statement of the loop body; no model state for oob
+  (2, "n, oobn, flags, srcAddr, err := conn.ReadMsgUDPAddrPort(buf, oob)"),  -- env: kernel read; inputs: payload (ServerReply.serveWith), oob (Ev.ntp krx), srcAddr (ClientId.clientIdIp)
+  (2, "if err != nil"),  -- UNMODELLED: read error (closed socket...) is no input of any model; retried for ever, goroutine never returns
+  (3, "continue"),  -- ListenerTx.stepEv: | .drop sk (world unchanged), by analogy only: the failed read is not an event (row 13)
+  (2, "if flags != 0"),  -- ServerReply.serveWith: if payload.length > bufLen then .dropTruncated (MSG_TRUNC only; MSG_CTRUNC is no input)
+  (3, "continue"),  -- ServerReply.loopIter: | .dropTruncated => bl (continue before buf = buf[:n]); ListenerTx.stepEv: | .drop sk
+  (2, "oob = oob[:oobn]"),  -- UNMODELLED: oob cut to this datagram's control bytes; no model keeps oob contents across iterations (stale rx)
+  (2, "rxt, err := udp.TimestampFromOOBData(oob)"),  -- Udp.timestampFromOOBData (walkGen true; harness c08 op udp.oob); its verdict is ListenerTx.Ev.ntp krx
+  (2, "if err != nil"),  -- ListenerTx.stepEv: rxt0 := krx.getD nowRx, case krx = none
+  (3, "oob = oob[:0]"),  -- env: dead store in the IP listener (oob is not read again before row 11; the SCION listener forwards oob)
+  (3, "rxt = timebase.Now()"),  -- ListenerTx.stepEv: rxt0 := nowRx (timebase.Now()); Props C06Tx.C06_rx_fallback; harness c06tx regime none
+  (2, "buf = buf[:n]"),  -- ServerReply.loopIter: | _ => d.1.length (length left behind); payload = buf[:n] is the argument of serveWith
+  (2, "var ntpreq ntp.Packet"),  -- pin C09_pin_requestStateInLoop (x_c09.go): declared zero-valued inside the loop body before ntp.DecodePacket
+  (2, "err = ntp.DecodePacket(&ntpreq, buf)"),  -- NtpPacket.decodePacket, called in ServerReply.serveWith: match decodePacket payload (harness c09 op vreqpkt)
+  (2, "if err != nil"),  -- ServerReply.serveWith: | .err _ => .dropDecode (| .panic c => .crash c)
+  (3, "continue"),  -- ServerReply.loopIter: dropDecode, buffer left at d.1.length; ListenerTx.stepEv: | .drop sk
+  (2, "var authenticated bool"),  -- ServerReply.ntsBranch: result .1 / serve: ntsOk (false unless the branch succeeds); per-iteration reset not pinned
+  (2, "var ntsreq nts.Packet"),  -- ServerReply.loopIterN: freshNts = true (carried := []); pin C09_pin_requestStateInLoop (x_c09.go)
+  (2, "var serverCookie ntske.ServerCookie"),  -- pin C09_pin_requestStateInLoop (x_c09.go): zero-valued per iteration; Nts.serverReplyG: sc
+  (2, "if len(buf) > ntp.PacketLen"),  -- ServerReply.serveWith: payload.length > packetLen; ServerReply.entersNts; pin C09_pin_PacketLen
+  (3, "err = nts.DecodePacket(&ntsreq, buf)"),  -- Nts.serverReplyG: d <- decodePacketG fixed b; ServerReply.NtsView: decodes, cookies; pin C11_pin_ntsBranch
+  (3, "if err != nil"),  -- Nts.serverReplyG: bind on .err (request dropped); ServerReply.ntsBranch: v.decodes = false
+  (4, "continue"),  -- ServerReply.serveWith: .dropNts (payload.length > packetLen and ntsOk = false)
+  (3, "cookie, err := ntsreq.FirstCookie()"),  -- Nts.serverReplyG: cookie <- firstCookie d; ServerReply.ntsBranch: match all with | c :: _
+  (3, "if err != nil"),  -- Nts.firstCookie: | [] => .err .noCookies; ServerReply.ntsBranch: | [] => false
+  (4, "continue"),  -- ServerReply.serveWith: .dropNts
+  (3, "var encryptedCookie ntske.EncryptedServerCookie"),  -- env: declaration, zero value filled by Decode in the next row
+  (3, "err = encryptedCookie.Decode(cookie)"),  -- Nts.serverReplyG: ec <- decodeTLV fixed cookieTypeKeyID cookieTypeNonce cookieTypeCiphertext cookie (ecDecode)
+  (3, "if err != nil"),  -- Nts.serverReplyG: bind on .err; ServerReply.NtsView.okWith c = false
+  (4, "continue"),  -- ServerReply.serveWith: .dropNts
+  (3, "key, ok := provider.Get(int(encryptedCookie.ID))"),  -- Nts.serverReplyG: match keys ec.num; Provider.useStep: | .ntp, get s id t; pin C12_pin_keyUse_runIPServer
+  (3, "if !ok"),  -- Nts.serverReplyG: | none => .err .noKey; Provider.useStep: | none => (s, nothing opened); pin C12 ok-checked
+  (4, "continue"),  -- ServerReply.serveWith: .dropNts
+  (3, "serverCookie, err = encryptedCookie.Decrypt(key.Value)"),  -- Nts.serverReplyG: sc <- decryptCookieG fixed A ec key; Provider.Outcome.opened; pin C12_pin_keyUse_runIPServer
+  (3, "if err != nil"),  -- Nts.serverReplyG: bind on .err; ServerReply.NtsView.okWith c = false
+  (4, "continue"),  -- ServerReply.serveWith: .dropNts
+  (3, "err = nts.ProcessRequest(buf, serverCookie.C2S, &ntsreq)"),  -- Nts.serverReplyG: cs <- processRequestG fixed A b sc.y d (sc.y = C2S; cs = ntsreq.Cookies afterwards)
+  (3, "if err != nil"),  -- Nts.serverReplyG: bind on .err; ServerReply.NtsView.okWith c = false; Provider.useStep: auth = false
+  (4, "continue"),  -- ServerReply.serveWith: .dropNts
+  (3, "authenticated = true"),  -- ServerReply.ntsBranch: result .1 = true (ntsOk); Provider.useStep: | .ntp, auth = true
+  (2, "err = ntp.ValidateRequest(&ntpreq, srcAddr.Port())"),  -- NtpPacket.validateRequest req.lvm in ServerReply.serveWith (srcPort unused; after the NTS branch; c09 op vreq)
+  (2, "if err != nil"),  -- ServerReply.serveWith: else if validateRequest req.lvm = false then .dropValidate
+  (3, "continue"),  -- ServerReply.loopIter: dropValidate, buffer left at d.1.length; ListenerTx.stepEv: | .drop sk
+  (2, "clientID := srcAddr.Addr().String()"),  -- ClientId.clientIdIp host; pins C06_pin_clientIdIp_operands, C06_pin_clientID_passed (x_c06.go); c09 op ip.ident
+  (2, "var txt0 time.Time"),  -- env: declaration; out-parameter *txt of handleRequest (Server.HR.txt, Out.txt0)
+  (2, "var ntpresp ntp.Packet"),  -- ServerReply.replyLvm: zero packet, LVM = 0 (leap indicator 0); ServerReply.replyHeader: rootDelay 0
+  (2, "handleRequest(clientID, &ntpreq, &rxt, &txt0, &ntpresp)"),  -- ListenerTx.stepEv: hr := handleRequest cap icap w.store cl req rxt0 now (Server.handleRequestG true)
+  (2, "ntp.EncodePacket(&buf, &ntpresp)"),  -- NtpPacket.encodePacket (48 bytes); ServerReply.loopIter: | .reply => packetLen; Nts.serverReplyG: argument hdr
+  (2, "if authenticated"),  -- Nts.serverReplyG: part after processRequestG (else the 48-byte reply goes out); harness c09 op ip.hist kinds a/p
+  (3, "var cookies [][]byte"),  -- Nts.freshCookies: result list, | 0, r => ([], r)
+  (3, "key := provider.Current()"),  -- Nts.serverReplyG: curId curKey; Provider.useStep: current P s c1 c2; pin C12_pin_keyUse_runIPServer (x_c12.go)
+  (3, "addedCookie := false"),  -- Nts.serverReplyG: fresh.isEmpty (addedCookie = not fresh.isEmpty)
+  (3, "for range len(ntsreq.Cookies) + len(ntsreq.CookiePlaceholders)"),  -- Nts.freshCookies: fuel n := cs.length + d.nph (Nts.serverReplyG); pin C11_pin_ntsBranch: range(...) (x_c11.go)
+  (4, "encryptedCookie, err := serverCookie.EncryptWithNonce(key.Value, key.ID)"),  -- Nts.freshCookies: encryptCookie A sc curKey curId nonce, nonce = draw16 of the crypto/rand stream
+  (4, "if err != nil"),  -- Nts.freshCookies: match encryptCookie ... | _ => (cs, r'') (this field is skipped)
+  (5, "continue"),  -- Nts.freshCookies: | _ => (cs, r'') (next field)
+  (4, "cookie := encryptedCookie.Encode()"),  -- Nts.freshCookies: ecEncode ec
+  (4, "cookies = append(cookies, cookie)"),  -- Nts.freshCookies: ecEncode ec :: cs (first encrypted cookie first)
+  (4, "addedCookie = true"),  -- Nts.serverReplyG: fresh.isEmpty = false
+  (3, "if !addedCookie"),  -- Nts.serverReplyG: if fresh.isEmpty then .err .noCookies; ServerReply.serve folds it into ntsOk = false
+  (4, "continue"),  -- UNMODELLED: continue AFTER handleRequest recorded (rx, txt0): no reply, no updateTXTimestamp; models drop earlier
+  (3, "ntsresp := nts.NewResponsePacket(cookies, serverCookie.S2C, ntsreq.UniqueID.ID)"),  -- Nts.serverReplyG: pkt <- newResponsePacketG fixed fresh sc.x d.uid (sc.x = S2C; .panic .index on an empty list)
+  (3, "nts.EncodePacket(&buf, &ntsresp)"),  -- Nts.serverReplyG: encodePacketG fixed A hdr pkt (draw16 rnd').1 (pack errors panic: errToPanic); c10 op srv.reply
+  (2, "n, err = conn.WriteToUDPAddrPort(buf, srcAddr)"),  -- ListenerTx.sendRead: s1 := s.send kb (LSock.send: kernel numbers the datagram); pin C06_pin_txPostSend: 1 site
+  (2, "if err != nil || n != len(buf)"),  -- pin C06_pin_txPostSend (x_c06tx.go): send followed by its err != nil check; the failure is no model input (row 76)
+  (3, "continue"),  -- UNMODELLED: write failed after handleRequest recorded (rx, txt0): no Ev for it; txid kept though kernel may count
+  (2, "txt1, id, err := udp.ReadTXTimestamp(conn)"),  -- ListenerTx.reads: first call (kernelRead; ListenerTx.readTX, harness c06tx op udp.rtx); pin C06_pin_txPostSend
+  (2, "for err == nil && int32(id-txid) < 0"),  -- ListenerTx.reads: if fixed && decide (s.id < txid) (F20 repair; Nat instead of the int32 wrap-around comparison)
+  (3, "txt1, id, err = udp.ReadTXTimestamp(conn)"),  -- ListenerTx.reads: recursive call, nreads + 1 (Props C06Tx.C09_reads_bounded)
+  (2, "if err != nil"),  -- ListenerTx.decide3: if r.2.2 != .none
+  (3, "txt1 = txt0"),  -- ListenerTx.decide3: (txt0, ...) fallback to the software reading
+  (3, "txid++"),  -- ListenerTx.decide3: if fixed then txid + 1 (F20 repair); pin C06_pin_txidAssignments (x_c06tx.go)
+  (2, "else if id != txid"),  -- ListenerTx.decide3: else if r.2.1 != txid
+  (3, "txt1 = txt0"),  -- ListenerTx.decide3: (txt0, r.2.1 + 1) first component
+  (3, "txid = id + 1"),  -- ListenerTx.decide3: (txt0, r.2.1 + 1) second component; pin C06_pin_txidAssignments
+  (2, "else"),  -- ListenerTx.decide3: else (r.1, txid + 1): the kernel stamp of this very datagram
+  (3, "txid++"),  -- ListenerTx.decide3: txid + 1; pin C06_pin_txidAssignments
+  (2, "updateTXTimestamp(clientID, rxt, &txt1)")  -- ListenerTx.stepEv: u := updateTX hr.st cl hr.rxt p.txt1; pins C06_pin_txPostSend, C06_pin_clientID_passed
   ]
 
 /-- core/server, runSCIONServer -/
